@@ -1,4 +1,5 @@
 import PugModel.Sys.Partials
+import PugProofs.Props.C09
 import PugModel.Gen.Tables
 /-!
 # C17 — partial rendering returns exactly the requested partials, each as rendered alone
@@ -174,5 +175,12 @@ theorem C17_render_partials_skeleton :
       [("RenderPartials", "0 range partials"), ("RenderPartials", "1 if err != nil"), ("RenderPartials", "2 return nil, err"),
        ("RenderPartials", "0 return res, nil")] := by
   constructor <;> decide
+
+/-- **C17 (… and to `Engine.Render`, which every partial goes through).** A failing partial leaves `Render` by one of its error
+returns; that those exits (and a panic) give back what the call took - the rate-limit slot - is the skeleton the gate model of C09
+mirrors: the deferred release stands directly behind the acquisition, before every later `return`. -/
+theorem C17_render_skeleton :
+    Gen.renderSkeleton_ok = true ∧ Gen.renderSkeleton = Pug.Props.C09.expectedRenderSkeleton :=
+  Pug.Props.C09.C09_render_skeleton
 
 end Pug.Props.C17
